@@ -29,6 +29,13 @@ def regionEnd : Layout → Bytes → Bytes
     let r := regionEnd ps key
     if Bytes.lt key p && (r.isEmpty || Bytes.lt p r) then p else r
 
+/-- Start key of the region that contains `key` (`[]` = -∞): the greatest split point not above `key`. -/
+def regionStart : Layout → Bytes → Bytes
+  | [], _ => []
+  | p :: ps, key =>
+    let r := regionStart ps key
+    if Bytes.le p key && Bytes.le r p then p else r
+
 /-- `BatchLoadRegionsFromKey(key, n+1)`: end key of the last of (at most) `n+1` consecutive regions
     starting with the one that contains `key`. -/
 def batchEnd (l : Layout) : Nat → Bytes → Bytes
@@ -138,6 +145,8 @@ def runSequential (tasks : List Task) (failIdx : Option Nat) : List Task × Opti
 structure Lock where
   key : Bytes
   ts : Nat
+  /-- the lock sits on the primary key of its own transaction -/
+  primary : Bool
   deriving DecidableEq, Repr
 
 /-- a lock the ScanLock request `[lo, hi)`, `MaxVersion = maxV` has to report -/
@@ -156,7 +165,7 @@ structure ScanRec where
   deriving DecidableEq, Repr
 
 structure ResolveOut where
-  batches : List (List Lock)     -- the lock batches handed to BatchResolveLocks that succeeded
+  batches : List (List Lock)     -- what each handled batch removed from the store (see `touchedBy`)
   pop : List Lock                -- locks left in the store
   scans : List ScanRec           -- every ScanLock request (re-scans included)
   regions : Nat                  -- stat.CompletedRegions
@@ -165,30 +174,36 @@ structure ResolveOut where
 def reqEndOf (endKey locEnd : Bytes) : Bytes :=
   if !endKey.isEmpty && (locEnd.isEmpty || Bytes.lt endKey locEnd) then endKey else locEnd
 
-/-- state after a scan whose resolve came back with a nil location -/
-def rescanned (st : ResolveOut) (key reqEnd : Bytes) (n : Nat) : ResolveOut :=
-  { st with scans := st.scans ++ [⟨key, reqEnd, n⟩] }
+/-- What handling the scanned batch `locks` removes from the store: the forced status check of
+    `BatchResolveLocks` (`getTxnStatus` with current ts = max, rollback-if-not-exist) rolls back the primary lock of
+    every transaction that has a lock in the batch, wherever that primary lies; the ResolveLock request itself
+    (`withBatch`) removes the batch. -/
+def touchedBy (locks : List Lock) (withBatch : Bool) (l : Lock) : Bool :=
+  (withBatch && locks.contains l) || (l.primary && locks.any (fun x => x.ts == l.ts))
 
-/-- state after the batch `locks` was resolved -/
-def resolved (st : ResolveOut) (key reqEnd : Bytes) (locks : List Lock) (limit : Nat) : ResolveOut :=
-  { batches := st.batches ++ [locks], pop := st.pop.filter (fun l => !locks.contains l),
+/-- state after handling a batch: `withBatch = false` when the resolve came back with a nil location
+    (region error, the batch no longer lies in one region): only the status checks took effect -/
+def resolved (st : ResolveOut) (key reqEnd : Bytes) (locks : List Lock) (limit : Nat) (withBatch : Bool) : ResolveOut :=
+  { batches := st.batches ++ [st.pop.filter (touchedBy locks withBatch)],
+    pop := st.pop.filter (fun l => !touchedBy locks withBatch l),
     scans := st.scans ++ [⟨key, reqEnd, locks.length⟩],
-    regions := if locks.length < limit then st.regions + 1 else st.regions }
+    regions := if withBatch && decide (locks.length < limit) then st.regions + 1 else st.regions }
 
 /-- `ResolveLocksForRange(maxV, key, endKey, limit)`.
-    `retry i` = the i-th resolve came back with a nil location (the batch left its region): scan again.
+    `retry i key locks` = the resolve of the i-th scanned batch came back with a nil location: scan again from
+    the same key. It is an input (it depends on region changes racing with the loop).
     `none`: out of fuel, or the Go code would panic (`locks[len(locks)-1]` with `scanLimit = 0`). -/
-def resolveLoop (layouts : Nat → Layout) (retry : Nat → Bool) (maxV : Nat) (endKey : Bytes) (limit : Nat) :
+def resolveLoop (layouts : Nat → Layout) (retry : Nat → Bytes → List Lock → Bool) (maxV : Nat) (endKey : Bytes) (limit : Nat) :
     Nat → Nat → Bytes → ResolveOut → Option ResolveOut
   | 0, _, _, _ => none
   | fuel + 1, i, key, st =>
     let locEnd := regionEnd (layouts i) key
     let reqEnd := reqEndOf endKey locEnd
     let locks := scan st.pop maxV key reqEnd limit
-    if retry i then
-      resolveLoop layouts retry maxV endKey limit fuel (i + 1) key (rescanned st key reqEnd locks.length)
+    if retry i key locks then
+      resolveLoop layouts retry maxV endKey limit fuel (i + 1) key (resolved st key reqEnd locks limit false)
     else
-      let st' := resolved st key reqEnd locks limit
+      let st' := resolved st key reqEnd locks limit true
       -- if len(locks) < int(scanLimit) { key = loc.EndKey } else { key = locks[len(locks)-1].Key }
       let next : Option Bytes :=
         if locks.length < limit then some locEnd
@@ -202,7 +217,7 @@ def resolveLoop (layouts : Nat → Layout) (retry : Nat → Bool) (maxV : Nat) (
         if key'.isEmpty || (!endKey.isEmpty && geB key' endKey) then some st'
         else resolveLoop layouts retry maxV endKey limit fuel (i + 1) key' st'
 
-def resolveLocksForRange (layouts : Nat → Layout) (retry : Nat → Bool) (maxV : Nat) (startKey endKey : Bytes)
+def resolveLocksForRange (layouts : Nat → Layout) (retry : Nat → Bytes → List Lock → Bool) (maxV : Nat) (startKey endKey : Bytes)
     (limit fuel : Nat) (pop : List Lock) : Option ResolveOut :=
   resolveLoop layouts retry maxV endKey limit fuel 0 startKey ⟨[], pop, [], 0⟩
 
